@@ -44,7 +44,8 @@ KINDS = ["c64", "strided", "revF", "flt", "i64", "i32", "list", "pandas"]
 # input kinds
 class Arg:
     """one argument of a case. nature: 'float' | 'int' (array-like data, varied over KINDS) | 'fixed' (passed as is,
-    still snapshotted) | 'receiver' (the object a mutator method is called on: passed as is, NOT snapshotted)"""
+    still snapshotted) | 'receiver' (the object a mutator method is called on: passed as is, NOT snapshotted) |
+    'work' (a caller-supplied output / work buffer: passed as is, NOT snapshotted, the SAME object in later calls)"""
 
     def __init__(self, name, value, nature="float", kinds=None):
         self.name, self.value, self.nature, self.kinds = name, value, nature, kinds
@@ -589,6 +590,12 @@ def wrapper_cases(H, rng, kind, holes="none", flow="acyclic"):
     gr.data = np.array(floats(rng, 42)).reshape(6, 7)
     xy = np.array([[rng.uniform(0.1, 6.9), rng.uniform(0.1, 5.9)] for _ in range(n)])
     cells = np.array([rng.randrange(42) for _ in range(n)])
+    if flow != "acyclic":       # the repetitions that are not the canonical one: inputs AT the limits of the domain
+        for i in range(n):
+            if rng.random() < 0.5:
+                xy[i] = rng.choice([[0., 0.], [7., 6.], [7., rng.uniform(0, 6)], [rng.uniform(0, 7), 6.], [3., 2.]])
+            if rng.random() < 0.4:
+                cells[i] = rng.choice([0, 41, -1, 42])
     a0 = v(xy)
     out.append(("coord2cell", [a0], lambda a0=a0: gr.coord2cell(a0)))
     a0 = v(cells, "int")
@@ -789,13 +796,15 @@ def correspondence(ctx, H, rec):
 # ----------------------------------------------------------------------------------------------
 # oracle: every public function of the quantifier
 class Entry:
-    def __init__(self, name, fn, gen, canonical="c64", optional=False, options=None, covers=None):
+    def __init__(self, name, fn, gen, canonical="c64", optional=False, options=None, covers=None, reference=None):
         # optional: the function is allowed to reject every case (a variant outside what it documents)
         # options: documented keyword options -> values to exercise (first = the default, used in the canonical case)
         self.name, self.fn, self.gen, self.canonical, self.optional = name, fn, gen, canonical, optional
         self.options = options or {}
         # public names of the library this entry exercises (inventory cross-check); default: from the entry name
         self.covers = covers or [name.split("/")[0]]
+        # the same answer obtained another way (e.g. without the optional work buffer), compared in the histories
+        self.reference = reference
 
 
 def build_entries(H):
@@ -803,8 +812,8 @@ def build_entries(H):
     M, S, A, T, D, Q, SG = H.metrics, H.sutils, H.armodels, H.transform, H.dutils, H.qualitycontrol, H.signatures
     E = []
 
-    def add(name, fn, gen, canonical="c64", optional=False, options=None, covers=None):
-        E.append(Entry(name, fn, gen, canonical, optional, options, covers))
+    def add(name, fn, gen, canonical="c64", optional=False, options=None, covers=None, reference=None):
+        E.append(Entry(name, fn, gen, canonical, optional, options, covers, reference))
 
     def N(n):
         """series length: beyond the internal thresholds of the library in the `big` cases (same offset for every
@@ -819,7 +828,12 @@ def build_entries(H):
     def vec(rng, n=None, lo=0.1, hi=10.0):
         # H.tiny: lengths 1..3 in some of the random-mixture cases (most functions reject them; none may touch them)
         n = N(n or (rng.randint(1, 3) if H.tiny else rng.randint(8, 20)))
-        return np.array(floats(rng, n, lo, hi))
+        a = np.array(floats(rng, n, lo, hi))
+        if H.varied and n >= 4:
+            # values AT the ends of the documented range and at the usual thresholds (0, censor)
+            for v in (lo, hi, 0.0 if lo <= 0.1 else lo):
+                a[rng.randrange(n)] = v
+        return a
 
     def mat(rng, n, p, lo=0.1, hi=10.0):
         n = N(n)
@@ -1039,11 +1053,26 @@ def build_entries(H):
         return g
     gtypes = [np.float64, np.float32, np.int64, np.int32]
 
-    def gxy(rng):
-        return np.array([[rng.uniform(0.1, 6.9), rng.uniform(0.1, 5.9)] for _ in range(rng.randint(2, 9))])
+    def gxy(rng, npts=None):
+        """points of the 7x6 unit grid anchored at (0, 0); in the varied cases also points AT the documented limits of
+        the domain: the four corners, the right / top edge (cells are closed on their lower-left sides), cell borders"""
+        pts = [[rng.uniform(0.1, 6.9), rng.uniform(0.1, 5.9)] for _ in range(npts or rng.randint(2, 9))]
+        if H.varied:
+            edge = [[0., 0.], [7., 6.], [7., 0.], [0., 6.], [7., rng.uniform(0, 6)], [rng.uniform(0, 7), 6.],
+                    [0., rng.uniform(0, 6)], [rng.uniform(0, 7), 0.], [3., 2.], [7. - 1e-12, 6. - 1e-12]]
+            for i in range(len(pts)):
+                if rng.random() < 0.6:
+                    pts[i] = list(rng.choice(edge))
+        return np.array(pts)
 
     def gcells(rng):
-        return np.array([rng.randrange(42) for _ in range(rng.randint(2, 9))])
+        """cell numbers; in the varied cases also the first and last cell and numbers just outside the grid"""
+        cells = [rng.randrange(42) for _ in range(rng.randint(2, 9))]
+        if H.varied:
+            for i in range(len(cells)):
+                if rng.random() < 0.5:
+                    cells[i] = rng.choice([0, 41, 6, 35, -1, 42])
+        return np.array(cells)
     add("Grid.coord2cell", lambda self, xycoords: self.coord2cell(xycoords),
         lambda rng: [Arg("self", fgrid(rng, rng.choice(gtypes)), "fixed"), Arg("xycoords", gxy(rng))])
     add("Grid.cell2coord", lambda self, idxcells: self.cell2coord(idxcells),
@@ -1197,6 +1226,17 @@ def build_entries(H):
     add("gutils.points_inside_polygon", lambda points, polygon, **o: H.gutils.points_inside_polygon(points, polygon, **o),
         options={"atol": [1e-8, 0.1]}, gen=
         lambda rng: [Arg("points", gxy(rng)), Arg("polygon", poly + rng.uniform(0, 0.3))])
+
+    # a caller-supplied output / work vector: the same object in every call of a history; the answer must be the one
+    # of the call without it
+    add("gutils.points_inside_polygon/inside",
+        lambda points, polygon, inside, **o: np.array(H.gutils.points_inside_polygon(points, polygon, inside=inside, **o)),
+        options={"atol": [1e-8, 0.1]},
+        gen=lambda rng: [Arg("points", gxy(rng, 12) + rng.choice([0., 0., 3., -2.]), kinds=["c64", "strided", "revF", "flt"]),
+                         Arg("polygon", (poly - 3.) * rng.choice([1., 0.5, 0.3]) + 3. + rng.uniform(-1.5, 1.5)),
+                         Arg("inside", np.full(12, rng.choice([0, 1, 5]), dtype=np.int32), "work")],
+        covers=["gutils.points_inside_polygon"],
+        reference=lambda points, polygon, inside, **o: np.array(H.gutils.points_inside_polygon(points, polygon, **o)))
 
     # ---------------- plots
     add("boxplot.boxplot_stats", lambda data: H.boxplot.boxplot_stats(data, 50., 90.),
@@ -1415,9 +1455,9 @@ def oracle(ctx, H, rec, entries):
             args = ent.gen(rng)
             kw, keep, kinds_used, unsnapped = {}, [], {}, set()
             for a in args:
-                if a.nature in ("fixed", "receiver"):
+                if a.nature in ("fixed", "receiver", "work"):
                     kw[a.name] = a.value
-                    if a.nature == "receiver":
+                    if a.nature in ("receiver", "work"):
                         unsnapped.add(a.name)
                     continue
                 k = asg.get(a.name, "c64")
@@ -1487,7 +1527,7 @@ def oracle(ctx, H, rec, entries):
                 snap1 = sn.snap(r1)
                 kw3 = {}
                 for a in ent.gen(rng):
-                    if a.name == "self" or a.nature == "receiver":
+                    if a.name == "self" or a.nature in ("receiver", "work"):
                         kw3[a.name] = kw[a.name]                      # same receiver, other data
                     elif a.nature == "fixed":
                         kw3[a.name] = a.value
@@ -1745,10 +1785,12 @@ def make_case(H, ent, spec):
     hmode, asg, iplan = spec["holes"], spec["asg"], spec["iplan"]
     kw, kinds_used, receivers = {}, {}, set()
     for a in ent.gen(rng):
-        if a.nature in ("fixed", "receiver"):
+        if a.nature in ("fixed", "receiver", "work"):
             kw[a.name] = a.value
             if a.nature == "receiver":
                 receivers.add(a.name)
+            if a.nature == "work" or a.name == "self":
+                kw.setdefault("__shared__", set()).add(a.name)
             continue
         k = asg.get(a.name, "c64")
         if a.kinds is not None and k not in a.kinds:
@@ -1761,6 +1803,7 @@ def make_case(H, ent, spec):
         kw.setdefault("__keep__", []).append(ka)
         kinds_used[a.name] = k
     keep = kw.pop("__keep__", [])
+    H._shared = kw.pop("__shared__", set())
     optvals = {}
     for j, (k, vals) in enumerate(sorted(ent.options.items())):
         optvals[k] = vals[0] if iplan == 0 else (vals[iplan % len(vals)] if j == iplan % len(ent.options)
@@ -1927,8 +1970,37 @@ def histories(ctx, H, entries, pristine):
                 versus(ent, "edited_result_changes_later_answer",
                        "after the caller overwrote the returned object in place, the same call no longer gives the "
                        "original answer", r2, ("ok", snap1), case)
+            shared = set(H._shared)
+            if ent.reference is not None:
+                np.random.seed(seed)
+                with warnings.catch_warnings(), quiet_stdout():
+                    warnings.simplefilter("ignore")
+                    try:
+                        rr = ent.reference(**kw, **optvals)
+                        d = same(H, r1[1], rr) if overlap(H, leaves(H, r1[1]), arg_leaves) else same(H, call(ent, kw, optvals, seed)[1], rr)
+                    except Exception as e:      # noqa
+                        d = f"reference form raises {type(e).__name__}"
+                if d:
+                    ctx.finding(f"{ent.name}/history/differs_from_reference_form",
+                                f"{ent.name}: the answer differs from the same call made without the caller-supplied "
+                                f"buffer: {d}", case)
             if receivers:
                 continue        # a mutator's receiver legitimately accumulates state: no pristine comparison after edits
+            # step 1b: call A -> call B (other arguments; same receiver, same caller-supplied work buffers) -> call A again
+            snapA = sn.snap(call(ent, kw, optvals, seed)[1]) if shared else None
+            if shared:
+                spec_b = dict(spec, seed=rng.randrange(2 ** 31))
+                kwb, optb, _k, _r = make_case(H, ent, spec_b)
+                for n in shared:
+                    kwb[n] = kw[n]
+                call(ent, kwb, optb, seed + 1)
+                make_case(H, ent, spec)          # restores the case flags (H.varied ...) of A; its objects are not used
+                ra = call(ent, kw, optvals, seed)
+                stats["steps"] += 2
+                stats["aba"] = stats.get("aba", 0) + 1
+                versus(ent, "answer_changed_by_intermediate_call",
+                       "call A, call B with other arguments on the same receiver / work buffers, call A again: the "
+                       "answer differs from the first one", ra, ("ok", snapA), case)
             # step 2: arguments edited in place / public attributes re-assigned, equal sizes
             mutate_args(H, kw)
             r3 = call(ent, kw, optvals, seed)
@@ -1958,6 +2030,100 @@ def histories(ctx, H, entries, pristine):
     if pristine.ok == 0:
         ctx.disagree("histories: no reference answer could be obtained from the pristine process", {})
 
+# ----------------------------------------------------------------------------------------------
+# corpus: minimised past failures, replayed first (same checks as the oracle: arguments byte-wise unchanged after each
+# of two calls, equal answers, and call A -> call B -> call A when the case has `args_b`)
+def corpus(ctx, H):
+    import json
+    np, pd, G = H.np, H.pd, H.grid
+    sn = Snap(H)
+
+    def f64(x):
+        return np.array([[float(v) for v in r] if isinstance(r, list) else float(r) for r in x], dtype=np.float64)
+
+    def mkgrid(d, dtype=np.float64):
+        g = G.Grid("g", d["ncols"], d["nrows"], dtype=dtype, nodata=-1)
+        g.data = (np.arange(d["ncols"] * d["nrows"], dtype=float).reshape(d["nrows"], d["ncols"]) if d["data"] == "arange"
+                  else f64(d["data"]))
+        return g
+
+    def inplace_cb(z):
+        z[z < 0] = 0
+        return z
+    def build(j, args):
+        a = {k: f64(v) for k, v in args.items()}
+        call = j["call"]
+        opts = j.get("options", {})
+        if call == "Grid.slice":
+            g = mkgrid(j["grid"])
+            return {"self": g, **a}, lambda self, xyslice: self.slice(xyslice)
+        if call == "points_inside_polygon/inside":
+            return a, lambda points, polygon, inside: np.array(H.gutils.points_inside_polygon(points, polygon, inside=inside))
+        if call == "putils.kde":
+            return a, lambda xy: H.putils.kde(xy, ngrid=6)
+        if call == "grid.accumulate":
+            return {"flowdir": mkgrid(j["grid"], np.int64)}, lambda flowdir: G.accumulate(flowdir, nprint=10 ** 9)
+        if call == "sutils.pareto_front":
+            return a, lambda data: H.sutils.pareto_front(data, **opts)
+        if call == "qualitycontrol.islinear":
+            return a, lambda data: H.qualitycontrol.islinear(data)
+        if call == "grid.gsmooth":
+            return {"grid": mkgrid(j["grid"])}, lambda grid: G.gsmooth(grid, **opts)
+        if call == "Grid.apply/inplace":
+            return {"self": mkgrid(j["grid"])}, lambda self: self.apply(inplace_cb)
+        if call == "sutils.lstsq/frame":
+            return ({"X": pd.DataFrame(a["X"], columns=["a", "b"]), "y": pd.Series(a["y"])},
+                    lambda X, y: H.sutils.lstsq(X, y, add_intercept=True)[0])
+        raise ValueError(f"corpus: unknown call {call}")
+
+    n = 0
+    for f in sorted((C.ROOT / "corpus" / PID).glob("*.json")):
+        j = json.loads(f.read_text())
+        kw, fn = build(j, j["args"])
+        work = None
+        if j["call"] == "points_inside_polygon/inside":
+            work = np.full(len(kw["points"]), 5, dtype=np.int32)
+            kw["inside"] = work
+        before = {k: sn.snap(v) for k, v in kw.items() if v is not work}
+        answers = []
+        for rep in range(2):
+            np.random.seed(11)
+            with warnings.catch_warnings(), quiet_stdout():
+                warnings.simplefilter("ignore")
+                try:
+                    answers.append(("ok", fn(**kw)))
+                except Exception as e:      # noqa
+                    answers.append(("err", type(e).__name__))
+            for k in before:
+                hard, _soft = sn.diff(before[k], sn.snap(kw[k]), k)
+                if hard:
+                    ctx.finding(f"corpus/{f.stem}/argument_modified/{k}", f"corpus case {f.stem}: call {rep + 1} changed "
+                                f"its argument `{k}`: {hard[0]} ({j.get('origin', '')})", {"corpus": f.name})
+                    before[k] = sn.snap(kw[k])
+        if answers[0][0] != answers[1][0] or (answers[0][0] == "ok" and same(H, answers[0][1], answers[1][1])):
+            ctx.finding(f"corpus/{f.stem}/not_repeatable", f"corpus case {f.stem}: two consecutive calls differ "
+                        f"({j.get('origin', '')})", {"corpus": f.name})
+        if "args_b" in j and answers[0][0] == "ok":
+            first = sn.snap(answers[0][1])
+            kwb, _fn = build(j, {**j["args"], **j["args_b"]})
+            if work is not None:
+                kwb["inside"] = work
+            fn(**kwb)
+            again = fn(**kw)
+            if not snap_equal(sn.snap(again), first):
+                ctx.finding(f"corpus/{f.stem}/answer_changed_by_intermediate_call", f"corpus case {f.stem}: call A, call B "
+                            f"on the same work buffer, call A again: another answer ({j.get('origin', '')})",
+                            {"corpus": f.name})
+            if work is not None:
+                free = np.array(H.gutils.points_inside_polygon(kw["points"], kw["polygon"]))
+                if not np.array_equal(free, again):
+                    ctx.finding(f"corpus/{f.stem}/differs_from_reference_form", f"corpus case {f.stem}: the answer with "
+                                f"the caller-supplied work vector differs from the answer without it",
+                                {"corpus": f.name})
+        n += 1
+        ctx.count(("corpus", f.name), answers[0][0] == "ok", "corpus")
+    ctx.extra["corpus_cases"] = n
+
 
 def classify(msg):
     for key, tag in (("dtype", "dtype"), ("shape", "shape"), ("columns", "columns"), ("index", "index"),
@@ -1975,6 +2141,7 @@ def body(ctx):
     pristine = Pristine(H, entries)          # forked before any library function has run in this process
     try:
         import time
+        corpus(ctx, H)
         t = [time.time()]
         inventory(ctx, H, entries)
         t.append(time.time())
